@@ -7,6 +7,7 @@ not depend on the model (recount, fresh rebuild, structural key), deep snapshots
 from __future__ import annotations
 
 import copy
+import json
 from typing import Any, Optional
 
 
@@ -175,8 +176,21 @@ class RealArena:
     def _nodes(self, objs) -> dict:
         return {"nodes": [[tree_json(o), self.handles_of(o)] for o in objs]}
 
+    def handles_valid(self, op: dict) -> bool:
+        n = len(self.hs)
+        hs: list = []
+        for k in ("i", "j", "p", "c", "t"):
+            if k in op and not (k == "i" and op["op"] == "classes"):
+                hs.append(op[k])
+        hs += list(op.get("kids", [])) + list(op.get("cs", []))
+        for pr in op.get("reps", []):
+            hs += list(pr)
+        return all(isinstance(h, int) and 0 <= h < n for h in hs)
+
     # ---- one op
     def apply(self, op: dict) -> dict:
+        if not self.handles_valid(op):
+            raise KeyError("unknown handle in " + json.dumps(op))
         try:
             return self._apply(op)
         except Exception as e:  # noqa
